@@ -18,9 +18,13 @@ Property theorems (the list audited in `Audit/C20.lean`):
   `query_independent_of_history`, `history_exact` over `runQueriesW`, the history model that threads the written state through and
   abstains once something was written;
 * `closures_keep_their_argument` ⇒ `configured_decorator_keeps_its_argument`;
-* `guard_iff_no_region` and one statement per named region of the guard's complement (`dunder_named_method_never_reported`,
-  `fresh_transformation_drops_everything`, `scan_escapes`, `static_or_class_method_never_bound`, the `enum_value_…` witnesses,
-  `instance_attribute_reported`): the regions are the open findings of C20 in `known_findings.json`;
+* `decorated_scan_exact` is about the REPAIRED `get_decorated_functions` (raw attribute first, only functions defined in a class,
+  marks from the function's `__dict__`, no name skipped; the translator reads the old shape as well and the model follows the facts):
+  plain, class and static methods with any names, whatever else lives in the classes and in the instance `__dict__`;
+  `seen_some`, `fixed_no_property_is_evaluated` and the `fixed_…` statements are the former findings, now positive;
+* `guard_iff_no_region` and one statement per named region of the guard's complement — two are left:
+  `fresh_transformation_drops_everything` (transformationDropsDecoratorAttribute) and `function_slot_name_is_never_a_mark`
+  (enumValueNamesFunctionSlot), the open findings of C20 in `known_findings.json`;
 * `mixins_source_shape`, `helpers_keep_nothing`, `mixins_keep_no_state` — the remaining facts read from the source (premises and tripwires,
   see there).
 
@@ -1350,38 +1354,54 @@ theorem mem_dirNames_of_resolve {t : Table} {mro : List Nat} {n : Name} {c : Nat
   apply List.mem_flatMap.mpr
   exact ⟨c, by simp [hm], List.mem_map.mpr ⟨(n, m), hmem, rfl⟩⟩
 
+/-- what the scan sees behind the name `n` of the instance -/
+def seenSelf (t : Table) (mro : List Nat) (x : TArg) (ia : Intr) (inst : InstNs) (n : Name) : Option Got :=
+  (rawSelf t mro inst n).bind (seen n x ia)
+
+theorem mem_view {t : Table} {mro : List Nat} {x : TArg} {ia : Intr} {inst : InstNs} {e : Name × Got} :
+    e ∈ view t mro x ia inst ↔ e.1 ∈ dirNames t mro inst ∧ seenSelf t mro x ia inst e.1 = some e.2 := by
+  obtain ⟨n, g⟩ := e
+  simp only [view, List.mem_filterMap, seenSelf]
+  constructor
+  · rintro ⟨n', hn', h⟩
+    cases hs : (rawSelf t mro inst n').bind (seen n' x ia) with
+    | none => simp [hs] at h
+    | some g' =>
+      simp only [hs, Option.map_some, Option.some.injEq, Prod.mk.injEq] at h
+      obtain ⟨rfl, rfl⟩ := h
+      exact ⟨hn', hs⟩
+  · rintro ⟨hn, hs⟩
+    exact ⟨n, hn, by simp [hs]⟩
+
 theorem mem_rowOf_view {t : Table} {mro : List Nat} {x : TArg} {ia : Intr} {inst : InstNs} {k : Key} {a : Attr} {v : Val} :
     (a, v) ∈ rowOf k (view t mro x ia inst) ↔
       ∃ n dict, n ∈ dirNames t mro inst ∧ skipName n = false ∧
-        getattrSelf t mro x ia inst n = some (.value a dict) ∧ dictGet k dict = some v := by
-  simp only [rowOf, view, List.mem_filterMap]
+        seenSelf t mro x ia inst n = some (.value a dict) ∧ dictGet k dict = some v := by
+  simp only [rowOf, List.mem_filterMap]
   constructor
-  · rintro ⟨e, ⟨n, hnd, hn⟩, hc⟩
-    cases hr : getattrSelf t mro x ia inst n with
-    | none => simp [hr] at hn
-    | some g =>
-      simp only [hr, Option.map_some, Option.some.injEq] at hn
-      subst hn
-      cases g with
-      | raises e => simp [contrib] at hc
-      | value a' dict =>
-        by_cases hs : skipName n = true
-        · simp [contrib, hs] at hc
-        · cases hd : dictGet k dict with
-          | none => simp [contrib, hs, hd] at hc
-          | some v' =>
-            simp only [contrib, hs, hd, Bool.false_eq_true, ↓reduceIte, Option.map_some, Option.some.injEq, Prod.mk.injEq] at hc
-            obtain ⟨rfl, rfl⟩ := hc
-            exact ⟨n, dict, hnd, by simpa using hs, hr, hd⟩
+  · rintro ⟨e, he, hc⟩
+    obtain ⟨n, g⟩ := e
+    rcases mem_view.mp he with ⟨hnd, hr⟩
+    cases g with
+    | raises e => simp [contrib] at hc
+    | value a' dict =>
+      by_cases hs : skipName n = true
+      · simp [contrib, hs] at hc
+      · cases hd : dictGet k dict with
+        | none => simp [contrib, hs, hd] at hc
+        | some v' =>
+          simp only [contrib, hs, hd, Bool.false_eq_true, ↓reduceIte, Option.map_some, Option.some.injEq, Prod.mk.injEq] at hc
+          obtain ⟨rfl, rfl⟩ := hc
+          exact ⟨n, dict, hnd, by simpa using hs, hr, hd⟩
   · rintro ⟨n, dict, hnd, hs, hg, hd⟩
-    refine ⟨(n, .value a dict), ⟨n, hnd, by simp [hg]⟩, ?_⟩
+    refine ⟨(n, .value a dict), mem_view.mpr ⟨hnd, hg⟩, ?_⟩
     simp [contrib, hs, hd]
 
 /-! ### the spec, unfolded -/
 
 theorem mem_decoratedIn {t : Table} {k : Key} {pre : List Nat} {c0 c : Nat} {n : Name} {v : Val} :
     ((c, n), v) ∈ decoratedIn t k pre c0 ↔
-      c = c0 ∧ ∃ apps, (n, MemberDef.func .inst apps) ∈ nsOf t c0 ∧ (∀ c' ∈ pre, definesName t n c' = false) ∧
+      c = c0 ∧ ∃ kind apps, (n, MemberDef.func kind apps) ∈ nsOf t c0 ∧ (∀ c' ∈ pre, definesName t n c' = false) ∧
         outermost k apps = some v := by
   simp only [decoratedIn, List.mem_filterMap]
   constructor
@@ -1389,31 +1409,27 @@ theorem mem_decoratedIn {t : Table} {k : Key} {pre : List Nat} {c0 c : Nat} {n :
     obtain ⟨n', m⟩ := p
     cases m with
     | func kind apps =>
-      cases kind with
-      | inst =>
-        simp only at hf
-        split at hf
-        · simp at hf
-        · rename_i hpre
-          cases ho : outermost k apps with
-          | none => simp [ho] at hf
-          | some v' =>
-            simp only [ho, Option.map_some, Option.some.injEq, Prod.mk.injEq] at hf
-            obtain ⟨⟨rfl, rfl⟩, rfl⟩ := hf
-            refine ⟨rfl, apps, hp, ?_, ho⟩
-            intro c' hc'
-            have : ¬ (pre.any (definesName t n') = true) := hpre
-            simp only [List.any_eq_true, not_exists, not_and, Bool.not_eq_true] at this
-            exact this c' hc'
-      | static => simp at hf
-      | cls => simp at hf
+      simp only at hf
+      split at hf
+      · simp at hf
+      · rename_i hpre
+        cases ho : outermost k apps with
+        | none => simp [ho] at hf
+        | some v' =>
+          simp only [ho, Option.map_some, Option.some.injEq, Prod.mk.injEq] at hf
+          obtain ⟨⟨rfl, rfl⟩, rfl⟩ := hf
+          refine ⟨rfl, kind, apps, hp, ?_, ho⟩
+          intro c' hc'
+          have : ¬ (pre.any (definesName t n') = true) := hpre
+          simp only [List.any_eq_true, not_exists, not_and, Bool.not_eq_true] at this
+          exact this c' hc'
     | other o at' => simp at hf
     | raising e => simp at hf
     | typeVarProp => simp at hf
     | typeVarsProp => simp at hf
     | classNameProp => simp at hf
-  · rintro ⟨rfl, apps, hmem, hpre, ho⟩
-    refine ⟨(n, .func .inst apps), hmem, ?_⟩
+  · rintro ⟨rfl, kind, apps, hmem, hpre, ho⟩
+    refine ⟨(n, .func kind apps), hmem, ?_⟩
     have : ¬ (pre.any (definesName t n) = true) := by
       simp only [List.any_eq_true, not_exists, not_and, Bool.not_eq_true]
       exact hpre
@@ -1421,7 +1437,7 @@ theorem mem_decoratedIn {t : Table} {k : Key} {pre : List Nat} {c0 c : Nat} {n :
 
 theorem mem_decoratedAlong {t : Table} {k : Key} : ∀ (mro pre : List Nat) (c : Nat) (n : Name) (v : Val),
     ((c, n), v) ∈ decoratedAlong t k pre mro ↔
-      ∃ p1 post apps, mro = p1 ++ c :: post ∧ (n, MemberDef.func .inst apps) ∈ nsOf t c ∧
+      ∃ p1 post kind apps, mro = p1 ++ c :: post ∧ (n, MemberDef.func kind apps) ∈ nsOf t c ∧
         (∀ c' ∈ pre ++ p1, definesName t n c' = false) ∧ outermost k apps = some v := by
   intro mro
   induction mro with
@@ -1430,9 +1446,9 @@ theorem mem_decoratedAlong {t : Table} {k : Key} : ∀ (mro pre : List Nat) (c :
     intro pre c n v
     simp only [decoratedAlong, List.mem_append, mem_decoratedIn, ih]
     constructor
-    · rintro (⟨rfl, apps, hmem, hpre, ho⟩ | ⟨p1, post, apps, hm, hmem, hpre, ho⟩)
-      · exact ⟨[], rest, apps, rfl, hmem, by simpa using hpre, ho⟩
-      · refine ⟨c0 :: p1, post, apps, by simp [hm], hmem, ?_, ho⟩
+    · rintro (⟨rfl, kind, apps, hmem, hpre, ho⟩ | ⟨p1, post, kind, apps, hm, hmem, hpre, ho⟩)
+      · exact ⟨[], rest, kind, apps, rfl, hmem, by simpa using hpre, ho⟩
+      · refine ⟨c0 :: p1, post, kind, apps, by simp [hm], hmem, ?_, ho⟩
         intro c' hc'
         apply hpre
         rcases hc' with h | h
@@ -1440,16 +1456,16 @@ theorem mem_decoratedAlong {t : Table} {k : Key} : ∀ (mro pre : List Nat) (c :
         · rcases List.mem_cons.mp h with h | h
           · exact Or.inl (Or.inr (by simp [h]))
           · exact Or.inr h
-    · rintro ⟨p1, post, apps, hm, hmem, hpre, ho⟩
+    · rintro ⟨p1, post, kind, apps, hm, hmem, hpre, ho⟩
       cases p1 with
       | nil =>
         simp only [List.nil_append, List.cons.injEq] at hm
         obtain ⟨rfl, rfl⟩ := hm
-        exact Or.inl ⟨rfl, apps, hmem, by simpa using hpre, ho⟩
+        exact Or.inl ⟨rfl, kind, apps, hmem, by simpa using hpre, ho⟩
       | cons y p1' =>
         simp only [List.cons_append, List.cons.injEq] at hm
         obtain ⟨rfl, rfl⟩ := hm
-        refine Or.inr ⟨p1', post, apps, rfl, hmem, ?_, ho⟩
+        refine Or.inr ⟨p1', post, kind, apps, rfl, hmem, ?_, ho⟩
         intro c' hc'
         apply hpre
         rcases hc' with (h | h) | h
@@ -1457,7 +1473,7 @@ theorem mem_decoratedAlong {t : Table} {k : Key} : ∀ (mro pre : List Nat) (c :
         · exact Or.inr (by simp at h; simp [h])
         · exact Or.inr (List.mem_cons_of_mem _ h)
 
-/-! ### inside the guard: what can contribute to the result -/
+/-! ### what the scan sees (the generated facts of the current source) -/
 
 theorem dictGet_some_mem {κ ν : Type} [DecidableEq κ] (k : κ) (v : ν) :
     ∀ (d : List (κ × ν)), dictGet k d = some v → (k, v) ∈ d := by
@@ -1489,26 +1505,13 @@ theorem outermost_some_mem (k : Key) : ∀ (apps : List App) (v : Val), outermos
       · rename_i e; exact ⟨a, List.mem_cons_self .., e⟩
       · simp at h
 
-theorem applyApps_absent_aux (k : Key) : ∀ (apps : List App) (s : FState), (∀ a ∈ apps, a.ty ≠ k) →
-    dictGet k s.dict = none → dictGet k (apps.foldl applyOne s).dict = none := by
-  intro apps
-  induction apps with
-  | nil => intro s _ h; simpa using h
-  | cons a r ih =>
-    intro s hne h
-    simp only [List.foldl_cons]
-    apply ih _ (fun b hb => hne b (List.mem_cons_of_mem _ hb))
-    have ha := hne a (List.mem_cons_self ..)
-    cases htr : a.tr <;>
-      simp [applyOne, htr, setattrKeyRole, setattrValRole, roleNat, dictGet_insert, ha, h, dictGet]
-
 theorem guard_unpack {t : Table} {mro : List Nat} {members : List Key} {ia : Intr} {inst : InstNs}
     (hg : decoGuard t mro members ia inst = true) :
     members.Nodup ∧ (∀ c ∈ mro, ((nsOf t c).map (·.1)).Nodup ∧
       ∀ p ∈ nsOf t c, memberOk members ia p.1 p.2 = true) ∧
-    (inst.map (·.1)).Nodup ∧ ∀ p ∈ inst, instOk members ia p.2 = true := by
+    (inst.map (·.1)).Nodup := by
   simp only [decoGuard, Bool.and_eq_true, decide_eq_true_eq, List.all_eq_true] at hg
-  exact ⟨hg.1.1.1, fun c hc => ⟨(hg.1.1.2 c hc).1, (hg.1.1.2 c hc).2⟩, hg.1.2, hg.2⟩
+  exact ⟨hg.1.1, fun c hc => ⟨(hg.1.2 c hc).1, (hg.1.2 c hc).2⟩, hg.2⟩
 
 theorem keyFree_absent {members : List Key} {attrs : List (Key × Val)} {k : Key} (hk : k ∈ members)
     (hf : keyFree members attrs = true) : dictGet k attrs = none := by
@@ -1519,109 +1522,113 @@ theorem keyFree_absent {members : List Key} {attrs : List (Key × Val)} {k : Key
     have := (List.all_eq_true.mp hf) (k, v) hm
     simp [hk] at this
 
-/-- `__dict__` first, then what the type defines: a name the type does not define is looked up in `__dict__` alone -/
-theorem dictGet_append {κ ν : Type} [DecidableEq κ] (k : κ) : ∀ (a b : List (κ × ν)),
-    dictGet k (a ++ b) = match dictGet k a with | some v => some v | none => dictGet k b := by
-  intro a
-  induction a with
-  | nil => intro b; simp [dictGet]
+/-- a filter that decides by the key alone and keeps the key `k` does not change what is found under `k` -/
+theorem dictGet_filter_key {κ ν : Type} [DecidableEq κ] (k : κ) (p : κ → Bool) (hp : p k = true) : ∀ (d : List (κ × ν)),
+    dictGet k (d.filter fun kv => p kv.1) = dictGet k d := by
+  intro d
+  induction d with
+  | nil => rfl
   | cons x r ih =>
-    intro b
     obtain ⟨k0, v0⟩ := x
-    simp only [List.cons_append, dictGet]
-    split
-    · rfl
-    · exact ih b
+    by_cases hk : k0 = k
+    · subst hk; simp [List.filter, hp, dictGet]
+    · cases hp0 : p k0 with
+      | true => simp [List.filter, hp0, dictGet, hk, ih]
+      | false => simp [List.filter, hp0, dictGet, hk, ih]
 
-theorem dictGet_append_absent {κ ν : Type} [DecidableEq κ] (k : κ) (a b : List (κ × ν)) (h : dictGet k b = none) :
-    dictGet k (a ++ b) = dictGet k a := by
-  rw [dictGet_append, h]
-  cases dictGet k a <;> rfl
+/-- a filter that decides by the key alone and drops the key `k` leaves nothing under `k` -/
+theorem dictGet_filter_dropped {κ ν : Type} [DecidableEq κ] (k : κ) (p : κ → Bool) (hp : p k = false) : ∀ (d : List (κ × ν)),
+    dictGet k (d.filter fun kv => p kv.1) = none := by
+  intro d
+  induction d with
+  | nil => rfl
+  | cons x r ih =>
+    obtain ⟨k0, v0⟩ := x
+    by_cases hk : k0 = k
+    · subst hk; simp [List.filter, hp, ih]
+    · cases hp0 : p k0 with
+      | true => simp [List.filter, hp0, dictGet, hk, ih]
+      | false => simp [List.filter, hp0, ih]
 
-/-- inside the guard only plain methods contribute, with the argument of the outermost application -/
-theorem contrib_is_method {members : List Key} {ia : Intr} {k : Key} (hk : k ∈ members)
-    {c : Nat} {n : Name} {x : TArg} {m : MemberDef} {a : Attr} {dict : List (Key × Val)} {v : Val}
-    (hok : memberOk members ia n m = true)
-    (hg : getattrMember c n x ia m = .value a dict) (hd : dictGet k dict = some v) :
-    ∃ apps, m = .func .inst apps ∧ a = .bound c n (applyApps apps).gen ∧ outermost k apps = some v := by
-  cases m with
-  | func kind apps =>
-    cases kind with
-    | inst =>
-      simp only [getattrMember, Got.value.injEq] at hg
-      obtain ⟨rfl, rfl⟩ := hg
-      simp only [memberOk, Bool.and_eq_true, List.all_eq_true] at hok
-      refine ⟨apps, rfl, rfl, ?_⟩
-      rw [dictGet_append_absent k _ _ (keyFree_absent hk hok.2)] at hd
-      rw [← applyApps_dict k apps (fun a ha => by simpa using hok.1.1 a ha)]
-      exact hd
-    | static =>
-      simp only [getattrMember, Got.value.injEq] at hg
-      obtain ⟨_, rfl⟩ := hg
-      simp only [memberOk, Bool.and_eq_true, List.all_eq_true] at hok
-      rw [dictGet_append_absent k _ _ (keyFree_absent hk hok.2)] at hd
-      have : dictGet k (applyApps apps).dict = none :=
-        applyApps_absent_aux k apps ⟨0, [], []⟩ (fun a ha e => by have := hok.1 a ha; simp [e, hk] at this) rfl
-      simp [this] at hd
-    | cls =>
-      simp only [getattrMember, Got.value.injEq] at hg
-      obtain ⟨_, rfl⟩ := hg
-      simp only [memberOk, Bool.and_eq_true, List.all_eq_true] at hok
-      rw [dictGet_append_absent k _ _ (keyFree_absent hk hok.2)] at hd
-      have : dictGet k (applyApps apps).dict = none :=
-        applyApps_absent_aux k apps ⟨0, [], []⟩ (fun a ha e => by have := hok.1 a ha; simp [e, hk] at this) rfl
-      simp [this] at hd
-  | other o attrs =>
-    simp only [getattrMember, Got.value.injEq] at hg
-    obtain ⟨_, rfl⟩ := hg
-    simp [keyFree_absent hk (by simpa [memberOk] using hok)] at hd
-  | raising e => simp [getattrMember] at hg
-  | typeVarProp =>
-    simp only [getattrMember, Got.value.injEq] at hg
-    obtain ⟨_, rfl⟩ := hg
-    simp [keyFree_absent hk (by simpa [memberOk] using hok)] at hd
-  | typeVarsProp =>
-    simp only [getattrMember, Got.value.injEq] at hg
-    obtain ⟨_, rfl⟩ := hg
-    simp [keyFree_absent hk (by simpa [memberOk] using hok)] at hd
-  | classNameProp =>
-    simp only [getattrMember, Got.value.injEq] at hg
-    obtain ⟨_, rfl⟩ := hg
-    simp [keyFree_absent hk (by simpa [memberOk] using hok)] at hd
+/-- the marks of a function, under a name that functions do not define by themselves: what `create_decorator` wrote -/
+theorem marksOf_get {ia : Intr} {k : Key} (hfree : dictGet k ia.fn = none) (dict : List (Key × Val)) :
+    dictGet k (marksOf ia dict) = dictGet k dict := by
+  simp only [marksOf, scanReadsMarksFromFunctionDict, ↓reduceIte]
+  exact dictGet_filter_key k (fun k' => (dictGet k' ia.fn).isNone) (by simp [hfree]) dict
 
-/-- … an entry of the instance `__dict__` contributes nothing … -/
-theorem inst_contributes_nothing {members : List Key} {ia : Intr} {k : Key} (hk : k ∈ members)
-    {iv : InstVal} {a : Attr} {dict : List (Key × Val)}
-    (hok : instOk members ia iv = true) (hg : getattrInst ia iv = .value a dict) : dictGet k dict = none := by
-  cases iv with
-  | fn fid apps =>
-    simp only [getattrInst, Got.value.injEq] at hg
-    obtain ⟨_, rfl⟩ := hg
-    simp only [instOk, Bool.and_eq_true, List.all_eq_true] at hok
-    rw [dictGet_append_absent k _ _ (keyFree_absent hk hok.2)]
-    exact applyApps_absent_aux k apps ⟨0, [], []⟩ (fun a ha e => by have := hok.1 a ha; simp [e, hk] at this) rfl
-  | obj o attrs =>
-    simp only [getattrInst, Got.value.injEq] at hg
-    obtain ⟨_, rfl⟩ := hg
-    exact keyFree_absent hk (by simpa [instOk] using hok)
+theorem unwrapped_all (k : FKind) : unwrapped k = true := by cases k <;> decide
 
-/-- … and every decorated plain method does contribute (its name is not skipped) -/
-theorem method_contrib {members : List Key} {ia : Intr} {k : Key} (hk : k ∈ members)
-    {n : Name} {apps : List App} {v : Val}
-    (hok : memberOk members ia n (.func .inst apps) = true) (ho : outermost k apps = some v) :
-    skipName n = false ∧ dictGet k ((applyApps apps).dict ++ ia.fn) = some v := by
-  simp only [memberOk, Bool.and_eq_true, List.all_eq_true, Bool.or_eq_true, Bool.not_eq_true'] at hok
-  refine ⟨?_, ?_⟩
-  · rcases hok.1.2 with h | h
-    · have h' : ¬ (2 ≤ n.unders) := of_decide_eq_false (by simpa [isDunder] using h)
-      simp only [skipName, skipPrefixUnderscores]
-      exact decide_eq_false h'
-    · rcases outermost_some_mem k apps v ho with ⟨a, ha, hak⟩
-      have := h a ha
-      simp [hak, hk] at this
-  · rw [dictGet_append_absent k _ _ (keyFree_absent hk hok.2),
-      applyApps_dict k apps (fun a ha => by simpa using hok.1.1 a ha)]
-    exact ho
+/-- **only functions defined in a class are looked at**: whatever stands behind a name, the scan goes on only with a plain, static or
+    class method of a class, and sees the method as the instance sees it with the marks of its function — never a property (raising
+    or not), never another object, never an entry of the instance `__dict__` -/
+theorem seen_some {n : Name} {x : TArg} {ia : Intr} {r : Raw} {g : Got} (h : seen n x ia r = some g) :
+    ∃ c kind apps, r = .cls c (.func kind apps) ∧
+      g = .value (methodAttr kind c n (applyApps apps).gen) (marksOf ia (applyApps apps).dict) := by
+  simp only [seen, scanLooksAtRawAttribute, Bool.not_true, Bool.false_eq_true, ↓reduceIte] at h
+  split at h
+  · rename_i c kind apps
+    simp only [unwrapped_all, ↓reduceIte, Option.some.injEq] at h
+    exact ⟨c, kind, apps, rfl, by rw [← h]; rfl⟩
+  · simp [scanRequiresMethodOfInstance] at h
+  · simp at h
+
+theorem seen_func (n : Name) (x : TArg) (ia : Intr) (c : Nat) (kind : FKind) (apps : List App) :
+    seen n x ia (.cls c (.func kind apps)) =
+      some (.value (methodAttr kind c n (applyApps apps).gen) (marksOf ia (applyApps apps).dict)) := by
+  simp [seen, scanLooksAtRawAttribute, unwrapped_all, getattrMember]
+
+/-- … and behind the name stands the class attribute the MRO resolves it to, not shadowed by the instance `__dict__` -/
+theorem seenSelf_some {t : Table} {mro : List Nat} {x : TArg} {ia : Intr} {inst : InstNs} {n : Name} {g : Got}
+    (h : seenSelf t mro x ia inst n = some g) :
+    ∃ c kind apps, resolve t mro n = some (c, .func kind apps) ∧ n ∉ inst.map (·.1) ∧
+      g = .value (methodAttr kind c n (applyApps apps).gen) (marksOf ia (applyApps apps).dict) := by
+  simp only [seenSelf] at h
+  cases hr : rawSelf t mro inst n with
+  | none => simp [hr] at h
+  | some r =>
+    simp only [hr, Option.bind_some] at h
+    rcases seen_some h with ⟨c, kind, apps, rfl, hg⟩
+    simp only [rawSelf] at hr
+    split at hr
+    · rename_i cm p hres hf
+      simp only [Option.some.injEq] at hr
+      split at hr
+      · rename_i hdd
+        injection hr with h1 h2
+        rw [h2] at hdd
+        simp [MemberDef.isDataDescr] at hdd
+      · simp at hr
+    · rename_i cm hres hf
+      simp only [Option.some.injEq, Raw.cls.injEq] at hr
+      obtain ⟨cm1, cm2⟩ := cm
+      simp only at hr
+      obtain ⟨h1, h2⟩ := hr
+      rw [h1, h2] at hres
+      refine ⟨c, kind, apps, hres, ?_, hg⟩
+      intro hmem'
+      rcases List.mem_map.mp hmem' with ⟨p, hp, hpn⟩
+      have := List.find?_eq_none.mp hf p hp
+      simp [hpn] at this
+    · simp at hr
+    · simp at hr
+
+theorem find_inst_none {inst : InstNs} {n : Name} (h : n ∉ inst.map (·.1)) : inst.find? (fun p => p.1 = n) = none := by
+  apply List.find?_eq_none.mpr
+  intro p hp hpn
+  exact h (List.mem_map.mpr ⟨p, hp, by simpa using hpn⟩)
+
+theorem seenSelf_of_resolve {t : Table} {mro : List Nat} {x : TArg} {ia : Intr} {inst : InstNs} {n : Name} {c : Nat}
+    {kind : FKind} {apps : List App} (hr : resolve t mro n = some (c, .func kind apps)) (hsh : n ∉ inst.map (·.1)) :
+    seenSelf t mro x ia inst n =
+      some (.value (methodAttr kind c n (applyApps apps).gen) (marksOf ia (applyApps apps).dict)) := by
+  simp only [seenSelf, rawSelf, hr, find_inst_none hsh, Option.bind_some, seen_func]
+
+theorem methodAttr_name {k1 k2 : FKind} {c1 c2 : Nat} {n1 n2 : Name} {g1 g2 : Nat}
+    (h : methodAttr k1 c1 n1 g1 = methodAttr k2 c2 n2 g2) : k1 = k2 ∧ c1 = c2 ∧ n1 = n2 := by
+  cases k1 <;> cases k2 <;> simp [methodAttr] at h <;> exact ⟨rfl, h.1, h.2.1⟩
+
+theorem methodAttr_hashable (k : FKind) (c : Nat) (n : Name) (g : Nat) : (methodAttr k c n g).hashable = true := by
+  cases k <;> rfl
 
 theorem filterMap_fst_sublist (f : Name → Option (Name × Got)) (hf : ∀ n e, f n = some e → e.1 = n) :
     ∀ (l : List Name), ((l.filterMap f).map Prod.fst).Sublist l := by
@@ -1640,12 +1647,12 @@ theorem view_names_nodup (t : Table) (mro : List Nat) (x : TArg) (ia : Intr) (in
     ((view t mro x ia inst).map Prod.fst).Nodup := by
   apply List.Nodup.sublist (filterMap_fst_sublist _ _ _) (nodup_dedup _)
   intro n e he
-  cases hr : getattrSelf t mro x ia inst n with
+  cases hr : (rawSelf t mro inst n).bind (seen n x ia) with
   | none => simp [hr] at he
   | some g => simp [hr] at he; rw [← he]
 
 theorem rowKeys_nodup (k : Key) : ∀ (es : List (Name × Got)), (es.map Prod.fst).Nodup →
-    (∀ e ∈ es, ∀ a v, contrib k e = some (a, v) → ∃ c g, a = Attr.bound c e.1 g) →
+    (∀ e ∈ es, ∀ a v, contrib k e = some (a, v) → ∃ kind c g, a = methodAttr kind c e.1 g) →
     ((rowOf k es).map Prod.fst).Nodup := by
   intro es
   induction es with
@@ -1663,10 +1670,10 @@ theorem rowKeys_nodup (k : Key) : ∀ (es : List (Name × Got)), (es.map Prod.fs
       intro hm
       rcases List.mem_map.mp hm with ⟨⟨a', v'⟩, hav, rfl⟩
       rcases List.mem_filterMap.mp hav with ⟨e', he', hc'⟩
-      rcases hb e (List.mem_cons_self ..) a' v hc with ⟨c1, g1, h1⟩
-      rcases hb e' (List.mem_cons_of_mem _ he') a' v' hc' with ⟨c2, g2, h2⟩
+      rcases hb e (List.mem_cons_self ..) a' v hc with ⟨k1, c1, g1, h1⟩
+      rcases hb e' (List.mem_cons_of_mem _ he') a' v' hc' with ⟨k2, c2, g2, h2⟩
       rw [h1] at h2
-      injection h2 with _ hn _
+      have hn := (methodAttr_name h2).2.2
       have : e.1 ∉ r.map Prod.fst := (List.nodup_cons.mp (by simpa using hnd)).1
       exact this (List.mem_map.mpr ⟨e', he', hn.symm⟩)
 
@@ -1674,137 +1681,76 @@ theorem mem_visibleDecorated {t : Table} {k : Key} {mro : List Nat} {shadow : Li
     ((c, n), v) ∈ visibleDecorated t k mro shadow ↔ ((c, n), v) ∈ decoratedAlong t k [] mro ∧ n ∉ shadow := by
   simp [visibleDecorated, List.mem_filter]
 
-theorem find_inst_none {inst : InstNs} {n : Name} (h : n ∉ inst.map (·.1)) : inst.find? (fun p => p.1 = n) = none := by
-  apply List.find?_eq_none.mpr
-  intro p hp hpn
-  exact h (List.mem_map.mpr ⟨p, hp, by simpa using hpn⟩)
+theorem skipName_false (n : Name) : skipName n = false := by simp [skipName, skipPrefixUnderscores]
 
-theorem find_inst_some {inst : InstNs} {n : Name} {p : Name × InstVal} (h : inst.find? (fun q => q.1 = n) = some p) :
-    p ∈ inst ∧ p.1 = n := ⟨List.mem_of_find?_eq_some h, by simpa using List.find?_some h⟩
+/-- **no property is evaluated, nothing the scan meets raises** — whatever the program -/
+theorem fixed_no_property_is_evaluated (t : Table) (mro : List Nat) (x : TArg) (ia : Intr) (inst : InstNs) :
+    noRaise (view t mro x ia inst) := by
+  intro e he _ xx hx
+  rcases seenSelf_some (mem_view.mp he).2 with ⟨c, kind, apps, _, _, hg⟩
+  rw [hx] at hg
+  simp at hg
 
 /-! ## property theorems: WithDecoratedMethods -/
 
-/-- **get_decorated_functions returns, for every member of the enum, exactly the bound methods that were decorated
-    through create_decorator, with the decorator argument** — for every class table, every MRO (any depth of
-    inheritance, extra bases), every enum, every assignment of stacked applications with attribute-preserving
-    transformations, every instance `__dict__`, inside `decoGuard`.  The scan succeeds; the result has one entry per member, in
-    member order; every reported object is a method bound to the instance (nothing of another sort); a method (class, name) is
-    reported with value `v` iff the spec lists it with `v` (nothing missing, nothing extra, `v` = argument of the
-    outermost application of that member; a name the instance `__dict__` defines itself is no method of the instance); no method is
+/-- **get_decorated_functions returns, for every member of the enum, exactly the methods that were decorated through
+    create_decorator, with the decorator argument** — for every class table, every MRO (any depth of inheritance, extra bases),
+    every enum, every assignment of stacked applications with attribute-preserving transformations to plain, static and class
+    methods with any names (dunder names included), whatever else lives in the classes (properties — raising or not —, objects that
+    carry attributes named like enum values, enum values that are attribute names of `str` / `dict` / the enum class) and in the
+    instance `__dict__`, inside `decoGuard`.  The scan succeeds; the result has one entry per member, in member order; every
+    reported object is a method of a class of the MRO as the instance sees it (`methodAttr`: bound to the instance, bound to the
+    class for a class method, the function for a static method) and of the kind it was declared with; a method (class, name) is
+    reported with value `v` iff the spec lists it with `v` (nothing missing, nothing extra, `v` = argument of the outermost
+    application of that member; a name the instance `__dict__` defines itself is no method of the instance); no method is
     reported twice. -/
 theorem decorated_scan_exact (t : Table) (mro : List Nat) (x : TArg) (members : List Key) (ia : Intr) (inst : InstNs)
     (hg : decoGuard t mro members ia inst = true) :
     ∃ rows : Key → List (Attr × Val),
       scanView members (view t mro x ia inst) (initDict members) = .ok (members.map fun k => (k, rows k)) ∧
       ∀ k ∈ members,
-        (∀ a v, (a, v) ∈ rows k → ∃ c n g, a = Attr.bound c n g) ∧
-        (∀ c n v, (∃ g, (Attr.bound c n g, v) ∈ rows k) ↔ ((c, n), v) ∈ visibleDecorated t k mro (inst.map (·.1))) ∧
+        (∀ a v, (a, v) ∈ rows k → ∃ kind c n g apps, a = methodAttr kind c n g ∧ c ∈ mro ∧ (n, .func kind apps) ∈ nsOf t c) ∧
+        (∀ c n v, (∃ kind g, (methodAttr kind c n g, v) ∈ rows k) ↔ ((c, n), v) ∈ visibleDecorated t k mro (inst.map (·.1))) ∧
         ((rows k).map Prod.fst).Nodup := by
-  rcases guard_unpack hg with ⟨hM, hcls, _, hinst⟩
-  -- every contribution to a member's row comes from a plain method of a class, found under its name, not shadowed by the instance
-  have hmeth : ∀ k ∈ members, ∀ n a dict v, getattrSelf t mro x ia inst n = some (.value a dict) → dictGet k dict = some v →
-      ∃ c apps, resolve t mro n = some (c, .func .inst apps) ∧ n ∉ inst.map (·.1) ∧
-        a = .bound c n (applyApps apps).gen ∧ outermost k apps = some v := by
-    intro k hk n a dict v hga hd
-    simp only [getattrSelf] at hga
-    split at hga
-    · -- class and instance both define the name
-      rename_i cm p hr hf
-      obtain ⟨c, m⟩ := cm
-      rcases resolve_some hr with ⟨p1, post, hm, _, hmem⟩
-      have hc : c ∈ mro := by simp [hm]
-      rcases find_inst_some hf with ⟨hp, _⟩
-      simp only [Option.some.injEq] at hga
-      split at hga
-      · rename_i hdd
-        rcases contrib_is_method hk ((hcls c hc).2 (n, m) hmem) hga hd with ⟨apps, rfl, _, _⟩
-        simp [MemberDef.isDataDescr] at hdd
-      · have := inst_contributes_nothing hk (hinst p hp) hga
-        simp [this] at hd
-    · rename_i cm hr hf
-      obtain ⟨c, m⟩ := cm
-      rcases resolve_some hr with ⟨p1, post, hm, _, hmem⟩
-      have hc : c ∈ mro := by simp [hm]
-      simp only [Option.some.injEq] at hga
-      rcases contrib_is_method hk ((hcls c hc).2 (n, m) hmem) hga hd with ⟨apps, rfl, ha, ho⟩
-      refine ⟨c, apps, hr, ?_, ha, ho⟩
-      intro hmem'
-      rcases List.mem_map.mp hmem' with ⟨p, hp, hpn⟩
-      have := List.find?_eq_none.mp hf p hp
-      simp [hpn] at this
-    · rename_i p hr hf
-      rcases find_inst_some hf with ⟨hp, _⟩
-      simp only [Option.some.injEq] at hga
-      have := inst_contributes_nothing hk (hinst p hp) hga
-      simp [this] at hd
-    · simp at hga
-  have hview : ∀ e ∈ view t mro x ia inst, getattrSelf t mro x ia inst e.1 = some e.2 := by
-    intro e he
-    simp only [view, List.mem_filterMap] at he
-    rcases he with ⟨n, _, hn⟩
-    cases hr : getattrSelf t mro x ia inst n with
-    | none => simp [hr] at hn
-    | some g => simp only [hr, Option.map_some, Option.some.injEq] at hn; subst hn; exact hr
-  have hraise : noRaise (view t mro x ia inst) := by
-    intro e he hs xx hx
-    have hga := hview e he
-    rw [hx] at hga
-    have hcase : ∀ c m, resolve t mro e.1 = some (c, m) → getattrMember c e.1 x ia m = .raises xx → False := by
-      intro c m hr hgm
-      rcases resolve_some hr with ⟨p1, post, hm, _, hmem⟩
-      have hok := (hcls c (by simp [hm])).2 (e.1, m) hmem
-      cases m with
-      | raising e' =>
-        simp only [memberOk, isDunder, decide_eq_true_eq] at hok
-        have hs2 : decide (2 ≤ e.1.unders) = false := hs
-        have hs' : ¬ (2 ≤ e.1.unders) := of_decide_eq_false hs2
-        omega
-      | func kind apps => simp [getattrMember] at hgm
-      | other o at' => simp [getattrMember] at hgm
-      | typeVarProp => simp [getattrMember] at hgm
-      | typeVarsProp => simp [getattrMember] at hgm
-      | classNameProp => simp [getattrMember] at hgm
-    have hinstv : ∀ iv, getattrInst ia iv = .raises xx → False := by
-      intro iv h; cases iv <;> simp [getattrInst] at h
-    simp only [getattrSelf] at hga
-    split at hga
-    · rename_i cm p hr hf
-      simp only [Option.some.injEq] at hga
-      split at hga
-      · exact hcase cm.1 cm.2 hr hga
-      · exact hinstv _ hga
-    · rename_i cm hr hf
-      simp only [Option.some.injEq] at hga
-      exact hcase cm.1 cm.2 hr hga
-    · simp only [Option.some.injEq] at hga
-      exact hinstv _ hga
-    · simp at hga
-  have hbound : ∀ k ∈ members, ∀ e ∈ view t mro x ia inst, ∀ a v, contrib k e = some (a, v) → ∃ c g, a = Attr.bound c e.1 g := by
+  rcases guard_unpack hg with ⟨hM, hcls, _⟩
+  -- every contribution to a member's row comes from a method of a class, found under its name, not shadowed by the instance
+  have hmeth : ∀ k ∈ members, ∀ n a dict v, seenSelf t mro x ia inst n = some (.value a dict) → dictGet k dict = some v →
+      ∃ c kind apps, resolve t mro n = some (c, .func kind apps) ∧ n ∉ inst.map (·.1) ∧
+        a = methodAttr kind c n (applyApps apps).gen ∧ outermost k apps = some v := by
+    intro k hk n a dict v hs hd
+    rcases seenSelf_some hs with ⟨c, kind, apps, hr, hsh, hg'⟩
+    simp only [Got.value.injEq] at hg'
+    obtain ⟨rfl, rfl⟩ := hg'
+    rcases resolve_some hr with ⟨p1, post, hm, _, hmem⟩
+    have hok := (hcls c (by simp [hm])).2 (n, .func kind apps) hmem
+    simp only [memberOk, Bool.and_eq_true, List.all_eq_true] at hok
+    rw [marksOf_get (keyFree_absent hk hok.2)] at hd
+    rw [applyApps_dict k apps (fun a ha => by simpa using hok.1 a ha)] at hd
+    exact ⟨c, kind, apps, hr, hsh, rfl, hd⟩
+  have hraise := fixed_no_property_is_evaluated t mro x ia inst
+  have hbound : ∀ k ∈ members, ∀ e ∈ view t mro x ia inst, ∀ a v, contrib k e = some (a, v) →
+      ∃ kind c g, a = methodAttr kind c e.1 g := by
     intro k hk e he a v hc
     obtain ⟨n, g⟩ := e
-    have hga := hview (n, g) he
+    have hga := (mem_view.mp he).2
     cases g with
     | raises xx => simp [contrib] at hc
     | value a' dict =>
-      by_cases hs : skipName n = true
-      · simp [contrib, hs] at hc
-      · cases hd : dictGet k dict with
-        | none => simp [contrib, hs, hd] at hc
-        | some v' =>
-          simp only [contrib, hs, hd, Bool.false_eq_true, ↓reduceIte, Option.map_some, Option.some.injEq, Prod.mk.injEq] at hc
-          obtain ⟨rfl, rfl⟩ := hc
-          rcases hmeth k hk n a' dict v' hga hd with ⟨c, apps, _, _, ha, _⟩
-          exact ⟨c, _, ha⟩
+      cases hd : dictGet k dict with
+      | none => simp [contrib, skipName_false, hd] at hc
+      | some v' =>
+        simp only [contrib, skipName_false, hd, Bool.false_eq_true, ↓reduceIte, Option.map_some, Option.some.injEq,
+          Prod.mk.injEq] at hc
+        obtain ⟨rfl, rfl⟩ := hc
+        rcases hmeth k hk n a' dict v' hga hd with ⟨c, kind, apps, _, _, ha, _⟩
+        exact ⟨kind, c, _, ha⟩
   have hhash : hashOk members (view t mro x ia inst) := by
-    intro e he hs a dict heq hex
-    rcases hex with ⟨k, hk, hkd⟩
-    cases hd : dictGet k dict with
-    | none => simp [hd] at hkd
-    | some v =>
-      have hga := hview e he
-      rw [heq] at hga
-      rcases hmeth k hk e.1 a dict v hga hd with ⟨c, apps, _, _, ha, _⟩
-      rw [ha]; rfl
+    intro e he _ a dict heq _
+    have hga := (mem_view.mp he).2
+    rw [heq] at hga
+    rcases seenSelf_some hga with ⟨c, kind, apps, _, _, hg'⟩
+    simp only [Got.value.injEq] at hg'
+    rw [hg'.1]; exact methodAttr_hashable ..
   have hnd : ∀ k ∈ members, ((rowOf k (view t mro x ia inst)).map Prod.fst).Nodup :=
     fun k hk => rowKeys_nodup k _ (view_names_nodup t mro x ia inst) (hbound k hk)
   refine ⟨fun k => rowOf k (view t mro x ia inst), ?_, ?_⟩
@@ -1820,25 +1766,29 @@ theorem decorated_scan_exact (t : Table) (mro : List Nat) (x : TArg) (members : 
     refine ⟨?_, ?_, hnd k hk⟩
     · intro a v hav
       rcases mem_rowOf_view.mp hav with ⟨n, dict, _, _, hga, hd⟩
-      rcases hmeth k hk n a dict v hga hd with ⟨c, apps, _, _, ha, _⟩
-      exact ⟨c, n, _, ha⟩
+      rcases hmeth k hk n a dict v hga hd with ⟨c, kind, apps, hr, _, ha, _⟩
+      rcases resolve_some hr with ⟨p1, post, hm, _, hmem⟩
+      exact ⟨kind, c, n, _, apps, ha, by simp [hm], hmem⟩
     · intro c n v
       rw [mem_visibleDecorated]
       constructor
-      · rintro ⟨g, hav⟩
+      · rintro ⟨kind, g, hav⟩
         rcases mem_rowOf_view.mp hav with ⟨n', dict, _, _, hga, hd⟩
-        rcases hmeth k hk n' _ dict v hga hd with ⟨c', apps, hr, hsh, ha, ho⟩
-        injection ha with hc hn _
+        rcases hmeth k hk n' _ dict v hga hd with ⟨c', kind', apps, hr, hsh, ha, ho⟩
+        rcases methodAttr_name ha with ⟨_, hc, hn⟩
         subst hc; subst hn
         rcases resolve_some hr with ⟨p1, post, hm, hpre, hmem⟩
-        exact ⟨(mem_decoratedAlong mro [] c n v).mpr ⟨p1, post, apps, hm, hmem, by simpa using hpre, ho⟩, hsh⟩
+        exact ⟨(mem_decoratedAlong mro [] c n v).mpr ⟨p1, post, kind', apps, hm, hmem, by simpa using hpre, ho⟩, hsh⟩
       · rintro ⟨hspec, hsh⟩
-        rcases (mem_decoratedAlong mro [] c n v).mp hspec with ⟨p1, post, apps, hm, hmem, hpre, ho⟩
+        rcases (mem_decoratedAlong mro [] c n v).mp hspec with ⟨p1, post, kind, apps, hm, hmem, hpre, ho⟩
         have hc : c ∈ mro := by simp [hm]
         have hr := resolve_of hm (by simpa using hpre) hmem (hcls c hc).1
-        rcases method_contrib hk ((hcls c hc).2 (n, .func .inst apps) hmem) ho with ⟨hs, hd⟩
-        refine ⟨(applyApps apps).gen, mem_rowOf_view.mpr ⟨n, _, mem_dirNames_of_resolve inst hr, hs, ?_, hd⟩⟩
-        simp [getattrSelf, hr, find_inst_none hsh, getattrMember]
+        have hok := (hcls c hc).2 (n, .func kind apps) hmem
+        simp only [memberOk, Bool.and_eq_true, List.all_eq_true] at hok
+        refine ⟨kind, (applyApps apps).gen, mem_rowOf_view.mpr ⟨n, _, mem_dirNames_of_resolve inst hr, skipName_false n,
+          seenSelf_of_resolve hr hsh, ?_⟩⟩
+        rw [marksOf_get (keyFree_absent hk hok.2), applyApps_dict k apps (fun a ha => by simpa using hok.1 a ha)]
+        exact ho
 
 /-- the same for `instance.get_decorated_functions()` end to end: an instance whose class binds the parameter of
     `WithDecoratedMethods` (or any supported shape with one type argument) to an enum -/
@@ -1849,8 +1799,8 @@ theorem decorated_exact {t : Table} (hwf : WF t) (d c : Nat) (orig : Option (Lis
     ∃ rows : Key → List (Attr × Val),
       getDecorated t d c orig enumOf inst = .ok (en.members.map fun k => (k, rows k)) ∧
       ∀ k ∈ en.members,
-        (∀ a v, (a, v) ∈ rows k → ∃ c' n g, a = Attr.bound c' n g) ∧
-        (∀ c' n v, (∃ g, (Attr.bound c' n g, v) ∈ rows k) ↔
+        (∀ a v, (a, v) ∈ rows k → ∃ kind c' n g, a = methodAttr kind c' n g) ∧
+        (∀ c' n v, (∃ kind g, (methodAttr kind c' n g, v) ∈ rows k) ↔
           ∃ row, (k, row) ∈ expectedDecorated t (lin t d c) en.members (inst.map (·.1)) ∧ ((c', n), v) ∈ row) ∧
         ((rows k).map Prod.fst).Nodup := by
   rcases decorated_scan_exact t (lin t d c) x en.members en.intr inst hg with ⟨rows, hscan, hrows⟩
@@ -1858,7 +1808,9 @@ theorem decorated_exact {t : Table} (hwf : WF t) (d c : Nat) (orig : Option (Lis
   · simp only [getDecorated, type_var_single hwf d c orig tk x hshape, hen, hscan]
   · intro k hk
     rcases hrows k hk with ⟨h1, h2, h3⟩
-    refine ⟨h1, ?_, h3⟩
+    refine ⟨fun a v hav => ?_, ?_, h3⟩
+    · rcases h1 a v hav with ⟨kind, c', n, g, _, ha, _, _⟩
+      exact ⟨kind, c', n, g, ha⟩
     intro c' n v
     rw [h2 c' n v]
     simp only [expectedDecorated, List.mem_map, Prod.mk.injEq]
@@ -1868,347 +1820,159 @@ theorem decorated_exact {t : Table} (hwf : WF t) (d c : Nat) (orig : Option (Lis
 
 /-! ## the full statement, and why it needs the guard -/
 
-/-- "exactly the decorated methods" without any restriction on what else lives in the class -/
+/-- "exactly the decorated methods" without any restriction on transformations and enum values -/
 def decorated_exact_full : Prop :=
   ∀ (t : Table) (mro : List Nat) (x : TArg) (members : List Key) (ia : Intr) (inst : InstNs),
     members.Nodup → (∀ c ∈ mro, ((nsOf t c).map (·.1)).Nodup) →
     ∃ rows : Key → List (Attr × Val),
       scanView members (view t mro x ia inst) (initDict members) = .ok (members.map fun k => (k, rows k)) ∧
       ∀ k ∈ members,
-        (∀ a v, (a, v) ∈ rows k → ∃ c n g, a = Attr.bound c n g) ∧
-        (∀ c n v, (∃ g, (Attr.bound c n g, v) ∈ rows k) ↔ ((c, n), v) ∈ visibleDecorated t k mro (inst.map (·.1)))
+        (∀ c n v, (∃ kind g, (methodAttr kind c n g, v) ∈ rows k) ↔ ((c, n), v) ∈ visibleDecorated t k mro (inst.map (·.1)))
 
 /-- one user class `class My(WithDecoratedMethods[D])` with the given namespace -/
 def oneClass (ns : List (Name × MemberDef)) : Table := libTable ++ [⟨[.param 3 [.ty 50]], ns⟩]
 
-/-- `decorated_exact_partial` is `decorated_scan_exact` above (guard `decoGuard`).  The code does violate the full
-    statement: a decorated method with a dunder name (`__call__`) is skipped by the `startswith('__')` test. -/
+/-- `decorated_exact_partial` is `decorated_scan_exact` above (guard `decoGuard`).  The code does violate the full statement: a
+    transformation that returns a new function without the attributes loses the marks of the applications below it. -/
 theorem decorated_exact_full_fails : ¬ decorated_exact_full := by
   intro h
-  rcases h (oneClass [(⟨2, "call__"⟩, .func .inst [⟨100, 1, .none⟩])]) [4, 3, 2, 0, 1] (.ty 50) [100] {} []
+  rcases h (oneClass [(⟨0, "m"⟩, .func .inst [⟨100, 1, .none⟩, ⟨101, 2, .fresh⟩])]) [4, 3, 2, 0, 1] (.ty 50) [100] {} []
     (by decide) (by decide) with ⟨rows, hscan, hrows⟩
-  have hs : scanView [100] (view (oneClass [(⟨2, "call__"⟩, .func .inst [⟨100, 1, .none⟩])]) [4, 3, 2, 0, 1] (.ty 50) {} [])
-      (initDict [100]) = .ok [(100, [])] := by decide
+  have hs : scanView [100] (view (oneClass [(⟨0, "m"⟩, .func .inst [⟨100, 1, .none⟩, ⟨101, 2, .fresh⟩])]) [4, 3, 2, 0, 1]
+      (.ty 50) {} []) (initDict [100]) = .ok [(100, [])] := by decide
   rw [hs] at hscan
   simp only [List.map_cons, List.map_nil, Res.ok.injEq, List.cons.injEq, Prod.mk.injEq, true_and, and_true] at hscan
-  rcases ((hrows 100 (by simp)).2 4 ⟨2, "call__"⟩ 1).mpr (by decide) with ⟨g, hg⟩
+  rcases ((hrows 100 (by simp)) 4 ⟨0, "m"⟩ 1).mpr (by decide) with ⟨kind, g, hg⟩
   rw [← hscan] at hg
   simp at hg
 
-/-! ### the regions outside the guard (finding ids of `known_findings.json`, named by `guardRegions`)
+/-! ### the two regions left outside the guard (finding ids of `known_findings.json`, named by `guardRegions`) -/
 
-Inside `decoGuard` the result is exact (`decorated_scan_exact`).  The complement of the guard is the union of the named regions below
-(`guard_iff_no_region`); for each of them a statement about EVERY program of the region says what the code does there, and a
-`decide`-checked program shows that this is not what C20 demands. -/
-
-/-- the guard holds iff the program lies in none of the named regions (names of members / instance entries unique, members distinct) -/
 theorem memberOk_iff_no_region (members : List Key) (ia : Intr) (n : Name) (m : MemberDef) :
     memberOk members ia n m = true ↔ memberRegions members ia n m = [] := by
   cases m with
-  | func kind apps =>
-    cases kind <;> simp only [memberOk, memberRegions] <;>
-      (repeat' split) <;> simp_all
-  | other o attrs => simp only [memberOk, memberRegions]; split <;> simp_all
-  | raising e => simp only [memberOk, memberRegions]; split <;> simp_all
-  | typeVarProp => simp only [memberOk, memberRegions]; split <;> simp_all
-  | typeVarsProp => simp only [memberOk, memberRegions]; split <;> simp_all
-  | classNameProp => simp only [memberOk, memberRegions]; split <;> simp_all
+  | func kind apps => simp only [memberOk, memberRegions]; (repeat' split) <;> simp_all
+  | other o attrs => simp [memberOk, memberRegions]
+  | raising e => simp [memberOk, memberRegions]
+  | typeVarProp => simp [memberOk, memberRegions]
+  | typeVarsProp => simp [memberOk, memberRegions]
+  | classNameProp => simp [memberOk, memberRegions]
 
-theorem instOk_iff_no_region (members : List Key) (ia : Intr) (iv : InstVal) :
-    instOk members ia iv = true ↔ instRegions members ia iv = [] := by
-  cases iv with
-  | fn fid apps => simp only [instOk, instRegions]; (repeat' split) <;> simp_all
-  | obj o attrs => simp only [instOk, instRegions]; split <;> simp_all
-
+/-- the guard holds iff the program lies in neither of the two named regions (names unique per namespace, members distinct) -/
 theorem guard_iff_no_region (t : Table) (mro : List Nat) (members : List Key) (ia : Intr) (inst : InstNs)
     (hM : members.Nodup) (hns : ∀ c ∈ mro, ((nsOf t c).map (·.1)).Nodup) (hin : (inst.map (·.1)).Nodup) :
-    decoGuard t mro members ia inst = true ↔ guardRegions t mro members ia inst = [] := by
-  simp only [decoGuard, guardRegions, Bool.and_eq_true, decide_eq_true_eq, List.all_eq_true, List.append_eq_nil_iff,
-    List.flatMap_eq_nil_iff, memberOk_iff_no_region, instOk_iff_no_region]
+    decoGuard t mro members ia inst = true ↔ guardRegions t mro members ia = [] := by
+  simp only [decoGuard, guardRegions, Bool.and_eq_true, decide_eq_true_eq, List.all_eq_true,
+    List.flatMap_eq_nil_iff, memberOk_iff_no_region]
   constructor
-  · rintro ⟨⟨⟨_, h1⟩, _⟩, h2⟩
-    exact ⟨fun c hc p hp => (h1 c hc).2 p hp, h2⟩
-  · rintro ⟨h1, h2⟩
-    exact ⟨⟨⟨hM, fun c hc => ⟨hns c hc, fun p hp => h1 c hc p hp⟩⟩, hin⟩, h2⟩
-
-/-- what a `Got` reports when it is found under the name `n'`: a bound method carries that name -/
-theorem bound_name_of_getattrSelf {t : Table} {mro : List Nat} {x : TArg} {ia : Intr} {inst : InstNs} {n' : Name}
-    {c : Nat} {n : Name} {g : Nat} {dict : List (Key × Val)}
-    (h : getattrSelf t mro x ia inst n' = some (.value (.bound c n g) dict)) : n = n' := by
-  have hm : ∀ c' m, getattrMember c' n' x ia m = .value (.bound c n g) dict → n = n' := by
-    intro c' m hg
-    cases m with
-    | func kind apps => cases kind <;> simp [getattrMember] at hg <;> exact hg.1.2.1.symm
-    | other o at' => simp [getattrMember] at hg
-    | raising e => simp [getattrMember] at hg
-    | typeVarProp => simp [getattrMember] at hg
-    | typeVarsProp => simp [getattrMember] at hg
-    | classNameProp => simp [getattrMember] at hg
-  have hi : ∀ iv, getattrInst ia iv = .value (.bound c n g) dict → n = n' := by
-    intro iv hg; cases iv <;> simp [getattrInst] at hg
-  simp only [getattrSelf] at h
-  split at h
-  · simp only [Option.some.injEq] at h
-    split at h
-    · exact hm _ _ h
-    · exact hi _ h
-  · simp only [Option.some.injEq] at h; exact hm _ _ h
-  · simp only [Option.some.injEq] at h; exact hi _ h
-  · simp at h
-
-/-- every key of every row satisfies `Q` -/
-def RowsSat (Q : Attr → Prop) (d : Dict) : Prop := ∀ kd ∈ d, ∀ av ∈ kd.2, Q av.1
-
-theorem dictInsert_sat {Q : Attr → Prop} (a : Attr) (v : Val) (ha : Q a) : ∀ (row : List (Attr × Val)),
-    (∀ av ∈ row, Q av.1) → ∀ av ∈ dictInsert a v row, Q av.1 := by
-  intro row
-  induction row with
-  | nil => intro _ av hav; simp [dictInsert] at hav; subst hav; exact ha
-  | cons x r ih =>
-    intro h av hav
-    obtain ⟨a0, v0⟩ := x
-    simp only [dictInsert] at hav
-    split at hav
-    · rcases List.mem_cons.mp hav with h1 | h1
-      · subst h1; exact h (a0, v0) (List.mem_cons_self ..)
-      · exact h av (List.mem_cons_of_mem _ h1)
-    · rcases List.mem_cons.mp hav with h1 | h1
-      · subst h1; exact h (a0, v0) (List.mem_cons_self ..)
-      · exact ih (fun av hav => h av (List.mem_cons_of_mem _ hav)) av h1
-
-theorem insertOuter_sat {Q : Attr → Prop} (k : Key) (a : Attr) (v : Val) (ha : Q a) : ∀ (d d' : Dict),
-    RowsSat Q d → insertOuter k a v d = some d' → RowsSat Q d' := by
-  intro d
-  induction d with
-  | nil =>
-    intro d' _ h
-    simp only [insertOuter] at h
-    split at h
-    · simp at h
-    · injection h with h; subst h
-      intro kd hkd av hav
-      simp at hkd; subst hkd
-      simp at hav; subst hav; exact ha
-  | cons x r ih =>
-    intro d' hs h
-    obtain ⟨k0, row⟩ := x
-    simp only [insertOuter] at h
-    split at h
-    · injection h with h; subst h
-      intro kd hkd av hav
-      rcases List.mem_cons.mp hkd with h1 | h1
-      · subst h1
-        exact dictInsert_sat a v ha row (fun av hav => hs (k0, row) (List.mem_cons_self ..) av hav) av hav
-      · exact hs kd (List.mem_cons_of_mem _ h1) av hav
-    · cases hr : insertOuter k a v r with
-      | none => simp [hr] at h
-      | some r' =>
-        simp only [hr, Option.map_some, Option.some.injEq] at h; subst h
-        intro kd hkd av hav
-        rcases List.mem_cons.mp hkd with h1 | h1
-        · subst h1; exact hs (k0, row) (List.mem_cons_self ..) av hav
-        · exact ih r' (fun kd hkd => hs kd (List.mem_cons_of_mem _ hkd)) hr kd h1 av hav
-
-theorem scanMembers_sat {Q : Attr → Prop} (a : Attr) (dict : List (Key × Val)) (ha : Q a) : ∀ (ms : List Key) (d d' : Dict),
-    RowsSat Q d → scanMembers a dict ms d = some d' → RowsSat Q d' := by
-  intro ms
-  induction ms with
-  | nil => intro d d' hs h; simp only [scanMembers, Option.some.injEq] at h; subst h; exact hs
-  | cons m r ih =>
-    intro d d' hs h
-    simp only [scanMembers] at h
-    split at h
-    · rename_i v _
-      cases hi : insertOuter m a v d with
-      | none => simp [hi] at h
-      | some d1 =>
-        simp only [hi, Option.bind_some] at h
-        exact ih d1 d' (insertOuter_sat m a v ha d d1 hs hi) h
-    · exact ih d d' hs h
-
-/-- whatever the program: every key of the result comes from a visited (not skipped) name and is the object found there -/
-theorem scanView_sat {Q : Attr → Prop} (M : List Key) : ∀ (es : List (Name × Got)) (d d' : Dict),
-    (∀ e ∈ es, skipName e.1 = false → ∀ a dict, e.2 = .value a dict → Q a) →
-    RowsSat Q d → scanView M es d = .ok d' → RowsSat Q d' := by
-  intro es
-  induction es with
-  | nil => intro d d' _ hs h; simp only [scanView, Res.ok.injEq] at h; subst h; exact hs
-  | cons e r ih =>
-    intro d d' hq hs h
-    obtain ⟨n, got⟩ := e
-    have hq' : ∀ e ∈ r, skipName e.1 = false → ∀ a dict, e.2 = .value a dict → Q a :=
-      fun e he => hq e (List.mem_cons_of_mem _ he)
-    simp only [scanView] at h
-    split at h
-    · exact ih d d' hq' hs h
-    · rename_i hsk
-      cases got with
-      | raises x => simp at h
-      | value a dict =>
-        simp only [scanValueIsGetattrOfAttribute, scanKeyIsAttribute, Bool.not_true, Bool.false_eq_true, ↓reduceIte] at h
-        split at h
-        · simp at h
-        · cases hm : scanMembers a dict M d with
-          | none => simp [hm] at h
-          | some d1 =>
-            simp only [hm] at h
-            have ha : Q a := hq (n, .value a dict) (List.mem_cons_self ..) (by simpa using hsk) a dict rfl
-            exact ih d1 d' hq' (scanMembers_sat a dict ha M d d1 hs hm) h
-
-/-- **region `decoratedDunderMethodSkipped`** — whatever the program (no guard): no method whose name starts with `__` is ever
-    reported, decorated or not: the scan passes over these names.  C20 demands every decorated method ("nothing missing"); the
-    program below shows one that the spec lists and the code does not report. -/
-theorem dunder_named_method_never_reported (t : Table) (mro : List Nat) (x : TArg) (members : List Key) (ia : Intr) (inst : InstNs)
-    (res : Dict) (h : scanView members (view t mro x ia inst) (initDict members) = .ok res) :
-    ∀ kd ∈ res, ∀ av ∈ kd.2, ∀ c n g, av.1 = .bound c n g → skipName n = false := by
-  refine scanView_sat (Q := fun a => ∀ c n g, a = .bound c n g → skipName n = false) members _ _ res ?_ ?_ h
-  · intro e he hs a dict heq c n g ha
-    subst ha
-    simp only [view, List.mem_filterMap] at he
-    rcases he with ⟨n', _, hn⟩
-    cases hr : getattrSelf t mro x ia inst n' with
-    | none => simp [hr] at hn
-    | some got =>
-      simp only [hr, Option.map_some, Option.some.injEq] at hn
-      subst hn
-      simp only at heq hs
-      subst heq
-      rw [bound_name_of_getattrSelf hr]; exact hs
-  · intro kd hkd av hav
-    simp only [initDict] at hkd
-    split at hkd
-    · rcases List.mem_map.mp hkd with ⟨k, _, rfl⟩; simp at hav
-    · simp at hkd
-
-example : ((4, ⟨2, "call__"⟩), 1) ∈ visibleDecorated (oneClass [(⟨2, "call__"⟩, .func .inst [⟨100, 1, .none⟩])]) 100 [4, 3, 2, 0, 1] [] ∧
-    guardRegions (oneClass [(⟨2, "call__"⟩, .func .inst [⟨100, 1, .none⟩])]) [4, 3, 2, 0, 1] [100] {} [] = ["decoratedDunderMethodSkipped"] := by
-  decide
+  · rintro ⟨⟨_, h1⟩, _⟩
+    exact fun c hc p hp => (h1 c hc).2 p hp
+  · intro h1
+    exact ⟨⟨hM, fun c hc => ⟨hns c hc, fun p hp => h1 c hc p hp⟩⟩, hin⟩
 
 /-- **region `transformationDropsDecoratorAttribute`** — whatever stands below it: after an application whose transformation returns
     a new function without the attributes (`fresh`), the function object carries nothing, so the method is reported under no member
     although every application below it went through `create_decorator` -/
-theorem fresh_transformation_drops_everything (apps : List App) (a : App) (h : a.tr = .fresh) (k : Key) :
-    dictGet k (applyApps (apps ++ [a])).dict = none := by
-  simp [applyApps, List.foldl_append, applyOne, h, dictGet]
+theorem fresh_transformation_drops_everything (ia : Intr) (apps : List App) (a : App) (h : a.tr = .fresh) (k : Key) :
+    dictGet k (marksOf ia (applyApps (apps ++ [a])).dict) = none := by
+  simp [applyApps, List.foldl_append, applyOne, h, marksOf, scanReadsMarksFromFunctionDict, dictGet]
 
 /-- an attribute-dropping transformation loses the entries made by the applications below it -/
 theorem fresh_transformation_loses_entry :
     scanView [100] (view (oneClass [(⟨0, "m"⟩, .func .inst [⟨100, 1, .none⟩, ⟨101, 2, .fresh⟩])]) [4, 3, 2, 0, 1] (.ty 50) {} [])
       (initDict [100]) = .ok [(100, [])] ∧
     ((4, ⟨0, "m"⟩), 1) ∈ visibleDecorated (oneClass [(⟨0, "m"⟩, .func .inst [⟨100, 1, .none⟩, ⟨101, 2, .fresh⟩])]) 100 [4, 3, 2, 0, 1] [] ∧
-    guardRegions (oneClass [(⟨0, "m"⟩, .func .inst [⟨100, 1, .none⟩, ⟨101, 2, .fresh⟩])]) [4, 3, 2, 0, 1] [100] {} []
+    guardRegions (oneClass [(⟨0, "m"⟩, .func .inst [⟨100, 1, .none⟩, ⟨101, 2, .fresh⟩])]) [4, 3, 2, 0, 1] [100] {}
       = ["transformationDropsDecoratorAttribute"] := by
   decide
 
-/-- does this entry of the view end the scan with an exception? -/
-def failsAt (M : List Key) (e : Name × Got) : Bool :=
-  !skipName e.1 && match e.2 with
-    | .raises _ => true
-    | .value a dict => !a.hashable && M.any fun k => (dictGet k dict).isSome
+/-- **region `enumValueNamesFunctionSlot`** — `class D(DecoratorType): DOC = '__doc__'`: a name that function objects define by
+    themselves is a slot of the function, `create_decorator`'s `setattr` writes the slot and nothing shows up among the marks: whatever
+    was applied, the method is reported under no such member -/
+theorem function_slot_name_is_never_a_mark (ia : Intr) (k : Key) (v : Val) (h : dictGet k ia.fn = some v) (dict : List (Key × Val)) :
+    dictGet k (marksOf ia dict) = none := by
+  simp only [marksOf, scanReadsMarksFromFunctionDict, ↓reduceIte]
+  exact dictGet_filter_dropped k (fun k' => (dictGet k' ia.fn).isNone) (by simp [h]) dict
 
-/-- **regions `propertyEvaluatedByScan` and `enumValueCollidesWithAttributeName` (dict)** — whatever else the program contains and in
-    whatever order `dir()` lists the names: one visible (not dunder-named) property that raises, or one unhashable object (the dict
-    that `type_vars` returns) that answers to the value of an enum member, and `get_decorated_functions` does not return -/
-theorem scan_escapes (M : List Key) : ∀ (es : List (Name × Got)) (acc : Dict), (∃ e ∈ es, failsAt M e = true) →
-    ∀ r, scanView M es acc ≠ .ok r := by
-  intro es
-  induction es with
-  | nil => intro acc h; simp at h
-  | cons e rest ih =>
-    intro acc hex r
-    obtain ⟨n, got⟩ := e
-    have hrest : failsAt M (n, got) = false → ∃ e ∈ rest, failsAt M e = true := by
-      intro hf
-      rcases hex with ⟨e, he, hfe⟩
-      rcases List.mem_cons.mp he with h1 | h1
-      · subst h1; simp [hf] at hfe
-      · exact ⟨e, h1, hfe⟩
-    simp only [scanView]
-    split
-    · rename_i hs
-      exact ih acc (hrest (by simp [failsAt, hs])) r
-    · rename_i hs
-      cases got with
-      | raises x => simp
-      | value a dict =>
-        simp only [scanValueIsGetattrOfAttribute, scanKeyIsAttribute, Bool.not_true, Bool.false_eq_true, ↓reduceIte]
-        split
-        · simp
-        · rename_i hh
-          cases hm : scanMembers a dict M acc with
-          | none => simp
-          | some acc' => exact ih acc' (hrest (by simpa [failsAt, hs] using hh)) r
-
-/-- an enum value that is also the name of a member (`FOO = 'FOO'`): the enum class itself (the value of the
-    property `type_var`, found by the scan of `dir(self)`) is reported -/
-theorem enum_name_collision_reports_enum_class :
-    scanView [100] (view (oneClass []) [4, 3, 2, 0, 1] (.ty 50) { cls := [(100, 9000)] } []) (initDict [100])
-      = .ok [(100, [(.typeArg (.ty 50), 9000)])] := by decide
-
-/-- **`class D(DecoratorType): UP = 'upper'`** — the str that `class_name` returns and the (Str)Enum class that `type_var` returns both
-    have an attribute `upper`: two entries that are no methods of the program, next to the decorated method -/
-theorem enum_value_upper_reports_str_and_enum_class :
-    scanView [100] (view (oneClass [(⟨0, "m"⟩, .func .inst [⟨100, 1, .none⟩])]) [4, 3, 2, 0, 1] (.ty 50)
-        { cls := [(100, 9999)], str := [(100, 9999)] } []) (initDict [100])
-      = .ok [(100, [(.bound 4 ⟨0, "m"⟩ 0, 1), (.typeArg (.ty 50), 9999), (.className, 9999)])] ∧
-    guardRegions (oneClass [(⟨0, "m"⟩, .func .inst [⟨100, 1, .none⟩])]) [4, 3, 2, 0, 1] [100]
-        { cls := [(100, 9999)], str := [(100, 9999)] } [] = ["enumValueCollidesWithAttributeName", "enumValueCollidesWithAttributeName"] := by
+theorem enum_value_naming_a_function_slot_loses_entry :
+    scanView [100] (view (oneClass [(⟨0, "m"⟩, .func .inst [⟨100, 1, .none⟩])]) [4, 3, 2, 0, 1] (.ty 50) { fn := [(100, 3)] } [])
+      (initDict [100]) = .ok [(100, [])] ∧
+    ((4, ⟨0, "m"⟩), 1) ∈ visibleDecorated (oneClass [(⟨0, "m"⟩, .func .inst [⟨100, 1, .none⟩])]) 100 [4, 3, 2, 0, 1] [] ∧
+    (guardRegions (oneClass [(⟨0, "m"⟩, .func .inst [⟨100, 1, .none⟩])]) [4, 3, 2, 0, 1] [100] { fn := [(100, 3)] }).eraseDups
+      = ["enumValueNamesFunctionSlot"] := by
   decide
 
-/-- **`class D(DecoratorType): GET = 'get'`** — the dict that `type_vars` returns has an attribute `get` and cannot be a dictionary
-    key: `get_decorated_functions` raises TypeError for EVERY class that uses such an enum, decorated methods or not -/
-theorem enum_value_get_raises_type_error (ns : List (Name × MemberDef)) (inst : InstNs) (cls str fn : List (Key × Val)) (v : Val)
-    (mro : List Nat) (x : TArg) (acc : Dict)
-    (hfirst : resolve (oneClass ns) mro ⟨0, "type_vars"⟩ = some (1, .typeVarsProp)) :
-    ∀ r, scanView [100] (view (oneClass ns) mro x { cls := cls, str := str, dict := [(100, v)], fn := fn } inst) acc ≠ .ok r := by
-  apply scan_escapes
-  refine ⟨(⟨0, "type_vars"⟩, .value .typeVars [(100, v)]), ?_, by simp [failsAt, skipName, skipPrefixUnderscores, Attr.hashable, dictGet]⟩
-  simp only [view, List.mem_filterMap]
-  refine ⟨⟨0, "type_vars"⟩, mem_dirNames_of_resolve inst hfirst, ?_⟩
-  simp only [getattrSelf, hfirst]
-  cases hf : inst.find? (fun p => p.1 = ⟨0, "type_vars"⟩) with
-  | none => simp [getattrMember]
-  | some p => simp [MemberDef.isDataDescr, getattrMember]
+/-! ### what the repair of `get_decorated_functions` closed (former findings; the former failing inputs stay in the corpus)
 
-example : ∀ r, scanView [100] (view (oneClass []) [4, 3, 2, 0, 1] (.ty 50) { dict := [(100, 9999)] } []) (initDict [100]) ≠ .ok r :=
-  enum_value_get_raises_type_error [] [] [] [] [] 9999 [4, 3, 2, 0, 1] (.ty 50) _ (by decide)
+Before the repair the scan asked `hasattr(getattr(self, name), <enum value>)` of every attribute whose name does not start with `__`.
+Now it looks at the raw attribute, goes on only with functions (plain / static / class methods), reads the marks from the function's
+`__dict__`, and reports what the instance sees as its method.  The statements below hold for the generated facts of the repaired
+source; with the facts of the old source (the translator reads both shapes) every one of them fails. -/
 
-example : scanView [100] (view (oneClass []) [4, 3, 2, 0, 1] (.ty 50) { dict := [(100, 9999)] } []) (initDict [100])
-    = .raised .member "TypeError" := by decide
+/-- **fixed `enumValueCollidesWithAttributeName`**: whatever the enum class, the str that `class_name` returns and the dict that
+    `type_vars` returns answer to by themselves (`upper`, `get`, `keys`, member names, …) is irrelevant: the guard does not mention
+    `ia.cls` / `ia.str` / `ia.dict`, and the scan gives the same answer for all of them -/
+theorem fixed_enum_values_may_name_attributes_of_str_dict_enum (t : Table) (mro : List Nat) (x : TArg) (members : List Key)
+    (fn cls cls' str str' dict dict' : List (Key × Val)) (inst : InstNs) :
+    view t mro x { cls := cls, str := str, dict := dict, fn := fn } inst =
+      view t mro x { cls := cls', str := str', dict := dict', fn := fn } inst ∧
+    decoGuard t mro members { cls := cls, str := str, dict := dict, fn := fn } inst =
+      decoGuard t mro members { cls := cls', str := str', dict := dict', fn := fn } inst := by
+  refine ⟨?_, by simp [decoGuard, memberOk]⟩
+  simp only [view]
+  congr 1
 
-/-- **region `decoratedStaticOrClassMethodReported`** — a decorated staticmethod is reported as the plain function, a decorated
-    classmethod as a method bound to the class: never as a bound method of the instance, whatever the applications -/
-theorem static_or_class_method_never_bound (c : Nat) (n : Name) (x : TArg) (ia : Intr) (k : FKind) (hk : k ≠ .inst) (apps : List App)
-    (a : Attr) (dict : List (Key × Val)) (h : getattrMember c n x ia (.func k apps) = .value a dict) :
-    a = .plainFn c n (applyApps apps).gen ∨ a = .clsBound c n (applyApps apps).gen := by
-  cases k with
-  | inst => exact absurd rfl hk
-  | static => simp only [getattrMember, Got.value.injEq] at h; exact Or.inl h.1.symm
-  | cls => simp only [getattrMember, Got.value.injEq] at h; exact Or.inr h.1.symm
+/-- `UP = 'upper'`: exactly the decorated method, neither the class name nor the enum class -/
+theorem fixed_enum_value_upper :
+    scanView [100] (view (oneClass [(⟨0, "m"⟩, .func .inst [⟨100, 1, .none⟩])]) [4, 3, 2, 0, 1] (.ty 50)
+        { cls := [(100, 9999)], str := [(100, 9999)] } []) (initDict [100])
+      = .ok [(100, [(.bound 4 ⟨0, "m"⟩ 0, 1)])] ∧
+    decoGuard (oneClass [(⟨0, "m"⟩, .func .inst [⟨100, 1, .none⟩])]) [4, 3, 2, 0, 1] [100]
+        { cls := [(100, 9999)], str := [(100, 9999)] } [] = true := by decide
 
-/-- a decorated staticmethod is reported as the plain function, not as a bound method -/
-theorem staticmethod_reported_unbound :
-    scanView [100] (view (oneClass [(⟨0, "s"⟩, .func .static [⟨100, 1, .none⟩])]) [4, 3, 2, 0, 1] (.ty 50) {} []) (initDict [100])
-      = .ok [(100, [(.plainFn 4 ⟨0, "s"⟩ 0, 1)])] ∧
-    guardRegions (oneClass [(⟨0, "s"⟩, .func .static [⟨100, 1, .none⟩])]) [4, 3, 2, 0, 1] [100] {} []
-      = ["decoratedStaticOrClassMethodReported"] := by decide
+/-- `GET = 'get'`: no TypeError from the dict that `type_vars` returns — it is never looked at -/
+theorem fixed_enum_value_get :
+    scanView [100] (view (oneClass [(⟨0, "m"⟩, .func .inst [⟨100, 1, .none⟩])]) [4, 3, 2, 0, 1] (.ty 50) { dict := [(100, 9999)] } [])
+      (initDict [100]) = .ok [(100, [(.bound 4 ⟨0, "m"⟩ 0, 1)])] ∧
+    decoGuard (oneClass [(⟨0, "m"⟩, .func .inst [⟨100, 1, .none⟩])]) [4, 3, 2, 0, 1] [100] { dict := [(100, 9999)] } [] = true := by
+  decide
 
-/-- a property that raises makes `get_decorated_functions` raise -/
-theorem raising_property_escapes :
-    scanView [100] (view (oneClass [(⟨0, "p"⟩, .raising "ValueError")]) [4, 3, 2, 0, 1] (.ty 50) {} []) (initDict [100])
-      = .raised .member "ValueError" ∧
-    guardRegions (oneClass [(⟨0, "p"⟩, .raising "ValueError")]) [4, 3, 2, 0, 1] [100] {} [] = ["propertyEvaluatedByScan"] := by decide
+/-- **fixed `decoratedDunderMethodSkipped`**: no name is passed over -/
+theorem fixed_no_name_is_skipped (n : Name) : skipName n = false := skipName_false n
 
-/-- **region `foreignObjectWithDecoratorAttributeReported`** — `self.cb = decorated_function` in `__init__` (an entry of the instance
-    `__dict__`), or a class attribute holding an object with such an attribute: reported although it is no method of the instance;
-    and a decorated method whose name the instance `__dict__` shadows is not reported (it is no method of the instance any more) -/
-theorem instance_attribute_reported :
-    scanView [100] (view (oneClass [(⟨0, "m"⟩, .func .inst [⟨100, 1, .none⟩])]) [4, 3, 2, 0, 1] (.ty 50) {}
-        [(⟨0, "cb"⟩, .fn 7 [⟨100, 2, .none⟩]), (⟨0, "m"⟩, .obj 8 [])]) (initDict [100])
-      = .ok [(100, [(.instFn 7 0, 2)])] ∧
-    visibleDecorated (oneClass [(⟨0, "m"⟩, .func .inst [⟨100, 1, .none⟩])]) 100 [4, 3, 2, 0, 1] [⟨0, "cb"⟩, ⟨0, "m"⟩] = [] ∧
-    guardRegions (oneClass [(⟨0, "m"⟩, .func .inst [⟨100, 1, .none⟩])]) [4, 3, 2, 0, 1] [100] {}
-        [(⟨0, "cb"⟩, .fn 7 [⟨100, 2, .none⟩]), (⟨0, "m"⟩, .obj 8 [])] = ["foreignObjectWithDecoratorAttributeReported"] := by decide
+theorem fixed_dunder_named_method_reported :
+    scanView [100] (view (oneClass [(⟨2, "call__"⟩, .func .inst [⟨100, 1, .none⟩])]) [4, 3, 2, 0, 1] (.ty 50) {} []) (initDict [100])
+      = .ok [(100, [(.bound 4 ⟨2, "call__"⟩ 0, 1)])] ∧
+    decoGuard (oneClass [(⟨2, "call__"⟩, .func .inst [⟨100, 1, .none⟩])]) [4, 3, 2, 0, 1] [100] {} [] = true := by decide
+
+/-- **fixed `decoratedStaticOrClassMethodReported`**: a decorated class method is reported as the method bound to the class, a decorated
+    static method as the function — what `instance.name` is —, both are demanded by the spec and covered by `decorated_scan_exact` -/
+theorem fixed_static_and_class_methods_are_methods :
+    scanView [100] (view (oneClass [(⟨0, "s"⟩, .func .static [⟨100, 1, .none⟩]), (⟨0, "c"⟩, .func .cls [⟨100, 2, .none⟩])])
+        [4, 3, 2, 0, 1] (.ty 50) {} []) (initDict [100])
+      = .ok [(100, [(.plainFn 4 ⟨0, "s"⟩ 0, 1), (.clsBound 4 ⟨0, "c"⟩ 0, 2)])] ∧
+    visibleDecorated (oneClass [(⟨0, "s"⟩, .func .static [⟨100, 1, .none⟩]), (⟨0, "c"⟩, .func .cls [⟨100, 2, .none⟩])]) 100
+        [4, 3, 2, 0, 1] [] = [((4, ⟨0, "s"⟩), 1), ((4, ⟨0, "c"⟩), 2)] ∧
+    decoGuard (oneClass [(⟨0, "s"⟩, .func .static [⟨100, 1, .none⟩]), (⟨0, "c"⟩, .func .cls [⟨100, 2, .none⟩])])
+        [4, 3, 2, 0, 1] [100] {} [] = true := by decide
+
+/-- **fixed `propertyEvaluatedByScan`**: a property that raises is not evaluated (`fixed_no_property_is_evaluated` for every program) -/
+theorem fixed_raising_property_is_passed_over :
+    scanView [100] (view (oneClass [(⟨0, "p"⟩, .raising "ValueError"), (⟨0, "m"⟩, .func .inst [⟨100, 1, .none⟩])])
+        [4, 3, 2, 0, 1] (.ty 50) {} []) (initDict [100])
+      = .ok [(100, [(.bound 4 ⟨0, "m"⟩ 0, 1)])] := by decide
+
+/-- **fixed `foreignObjectWithDecoratorAttributeReported`**: whatever the instance `__dict__` and the class attributes hold — decorated
+    functions, objects with attributes named like enum values — is not reported (`seen_some`: only functions defined in a class are
+    looked at); a name the instance defines itself shadows the method -/
+theorem fixed_instance_and_class_attributes_not_reported :
+    scanView [100] (view (oneClass [(⟨0, "m"⟩, .func .inst [⟨100, 1, .none⟩]), (⟨0, "helper"⟩, .other 9 [(100, 5)]),
+          (⟨0, "m2"⟩, .func .inst [⟨100, 3, .none⟩])]) [4, 3, 2, 0, 1] (.ty 50) {}
+        [(⟨0, "cb"⟩, .fn 7 [⟨100, 2, .none⟩]), (⟨0, "m2"⟩, .obj 8 [(100, 4)])]) (initDict [100])
+      = .ok [(100, [(.bound 4 ⟨0, "m"⟩ 0, 1)])] ∧
+    decoGuard (oneClass [(⟨0, "m"⟩, .func .inst [⟨100, 1, .none⟩]), (⟨0, "helper"⟩, .other 9 [(100, 5)]),
+          (⟨0, "m2"⟩, .func .inst [⟨100, 3, .none⟩])]) [4, 3, 2, 0, 1] [100] {}
+        [(⟨0, "cb"⟩, .fn 7 [⟨100, 2, .none⟩]), (⟨0, "m2"⟩, .obj 8 [(100, 4)])] = true := by decide
 
 /-! ## the facts taken from the source -/
 
@@ -2396,8 +2160,8 @@ theorem decorated_exact_one_class (x : Nat) (ns : List (Name × MemberDef)) (d :
     ∃ rows : Key → List (Attr × Val),
       getDecorated (wdmUser x ns) (d + 3) 4 none enumOf inst = .ok (en.members.map fun k => (k, rows k)) ∧
       ∀ k ∈ en.members,
-        (∀ a v, (a, v) ∈ rows k → ∃ c' n g, a = Attr.bound c' n g) ∧
-        (∀ c' n v, (∃ g, (Attr.bound c' n g, v) ∈ rows k) ↔
+        (∀ a v, (a, v) ∈ rows k → ∃ kind c' n g, a = methodAttr kind c' n g) ∧
+        (∀ c' n v, (∃ kind g, (methodAttr kind c' n g, v) ∈ rows k) ↔
           ∃ row, (k, row) ∈ expectedDecorated (wdmUser x ns) (lin (wdmUser x ns) (d + 3) 4) en.members (inst.map (·.1)) ∧
             ((c', n), v) ∈ row) ∧
         ((rows k).map Prod.fst).Nodup :=
